@@ -748,6 +748,67 @@ fn struct_props(ast: &DeriveInput, ts: proc_macro2::TokenStream) -> Result<Strin
     Ok(parts.join("|"))
 }
 
+
+// ---------------------------------------------------------------------------------------------------
+// EnumMessage: the four getters as tables  variant -> literal(s)  + wildcards, the shape of the model's msg_code
+// ---------------------------------------------------------------------------------------------------
+fn const_str_of(e: &syn::Expr) -> Result<String, String> {
+    // a string literal | concat!(a, b, ..) of such (the documentation of several lines is concat!(concat!(line, "\n"), ..))
+    match e {
+        syn::Expr::Lit(l) => match &l.lit { syn::Lit::Str(sx) => Ok(sx.value()), _ => Err("not a string literal".into()) },
+        syn::Expr::Macro(mc) if mc.mac.path.is_ident("concat") => {
+            let args = syn::parse::Parser::parse2(syn::punctuated::Punctuated::<syn::Expr, syn::Token![,]>::parse_terminated, mc.mac.tokens.clone())
+                .map_err(|e| format!("concat! arguments: {}", e))?;
+            let mut out = String::new();
+            for a in args.iter() { out.push_str(&const_str_of(a)?); }
+            Ok(out)
+        }
+        syn::Expr::Group(g) => const_str_of(&g.expr),
+        syn::Expr::Paren(g) => const_str_of(&g.expr),
+        _ => Err("not a constant string".into()),
+    }
+}
+fn struct_messages(ast: &DeriveInput, ts: proc_macro2::TokenStream) -> Result<String, String> {
+    let f: syn::File = syn::parse2(ts).map_err(|e| format!("tokens do not parse: {}", e))?;
+    let im = f.items.iter().find_map(|it| match it { syn::Item::Impl(im) if im.trait_.as_ref().map(|(_, p, _)| p.segments.last().map(|s| s.ident == "EnumMessage").unwrap_or(false)).unwrap_or(false) => Some(im), _ => None })
+        .ok_or("impl EnumMessage not found")?;
+    let mut parts: Vec<String> = Vec::new();
+    for (fname, tag) in [("get_message", "msg"), ("get_detailed_message", "det"), ("get_documentation", "doc"), ("get_serializations", "ser")] {
+        let m = im.items.iter().find_map(|ii| match ii { syn::ImplItem::Fn(m) if m.sig.ident == fname => Some(m), _ => None }).ok_or(format!("no fn {}", fname))?;
+        let mm = match m.block.stmts.as_slice() { [syn::Stmt::Expr(syn::Expr::Match(mm), None)] => mm, _ => return Err("body is not a single match".into()) };
+        if !matches!(&*mm.expr, syn::Expr::Path(p) if p.path.is_ident("self")) { return Err("the match does not scrutinise self".into()); }
+        let mut out: Vec<String> = Vec::new();
+        let mut seen_wild = false;
+        for a in &mm.arms {
+            if seen_wild { return Err("an arm after the wildcard".into()); }
+            if a.guard.is_some() { return Err("guarded arm".into()); }
+            if let syn::Pat::Wild(_) = &a.pat {
+                if tag == "ser" || !is_none_expr(&a.body) { return Err("unexpected wildcard".into()); }
+                out.push("W".to_string()); seen_wild = true; continue;
+            }
+            let mut p = &a.pat;
+            while let syn::Pat::Reference(r) = p { p = &r.pat; }
+            let (vi, _) = pat_variant(ast, p)?;
+            if tag != "ser" {
+                let val = strip_result(&a.body, "Some").ok_or("arm body is not Some(..)")?;
+                out.push(format!("v{}:{}", vi, hex(&const_str_of(&val)?)));
+            } else {
+                // { static ARR: [&'static str; N] = [..]; &ARR }
+                let blk = match &*a.body { syn::Expr::Block(b) => &b.block, _ => return Err("serializations arm is not a block".into()) };
+                let (st, tail) = match blk.stmts.as_slice() { [syn::Stmt::Item(syn::Item::Static(st)), syn::Stmt::Expr(t, None)] => (st, t), _ => return Err("serializations block shape".into()) };
+                let ok_tail = matches!(tail, syn::Expr::Reference(r) if matches!(&*r.expr, syn::Expr::Path(p) if p.path.is_ident(&st.ident)));
+                if !ok_tail { return Err("serializations arm does not return its static".into()); }
+                let elems = match &*st.expr { syn::Expr::Array(ar) => ar.elems.iter().map(const_str_of).collect::<Result<Vec<_>, _>>()?, _ => return Err("static is not an array".into()) };
+                let declared = match &*st.ty { syn::Type::Array(t) => norm_tokens(&t.len), _ => return Err("static type".into()) };
+                if declared.trim_end_matches("usize") != elems.len().to_string() { return Err("declared array length differs from the element count".into()); }
+                out.push(format!("v{}:[{}]", vi, elems.iter().map(|e| hex(e)).collect::<Vec<_>>().join(",")));
+            }
+        }
+        parts.push(format!("{}=[{}]", tag, out.join(";")));
+    }
+    Ok(parts.join("|"))
+}
+
 fn fnv(h: &mut u64, s: &str) { for b in s.bytes() { *h ^= b as u64; *h = h.wrapping_mul(0x100000001b3); } *h ^= 10; *h = h.wrapping_mul(0x100000001b3); }
 
 fn valid_ident(s: &str) -> bool {
@@ -837,6 +898,8 @@ fn main() {
                                 "EnumIter" => match std::panic::catch_unwind(std::panic::AssertUnwindSafe(|| struct_iter(&ast, ts))) {
                                     Ok(Ok(s)) => s, Ok(Err(m)) => format!("unparsed:{}", m), Err(_) => "unparsed:panic in the token reader".to_string() },
                                 "EnumProperty" => match std::panic::catch_unwind(std::panic::AssertUnwindSafe(|| struct_props(&ast, ts))) {
+                                    Ok(Ok(s)) => s, Ok(Err(m)) => format!("unparsed:{}", m), Err(_) => "unparsed:panic in the token reader".to_string() },
+                                "EnumMessage" => match std::panic::catch_unwind(std::panic::AssertUnwindSafe(|| struct_messages(&ast, ts))) {
                                     Ok(Ok(s)) => s, Ok(Err(m)) => format!("unparsed:{}", m), Err(_) => "unparsed:panic in the token reader".to_string() },
                                 _ => "unparsed:no structural reader for this derive".to_string(),
                             },
